@@ -159,6 +159,9 @@ structure ModelSt (θ μ σ : Type) where
   schedCfg : Option (Bool × Nat) := none
   /-- the values `reset()` restores (`initial_obj`, `_initial_probe`, initial positions / descan) -/
   init : List θ := []
+  /-- per parameter: `reset()` writes the initial value into the EXISTING tensor (`self._x.data = …`: probe tilt, scan
+  positions, descan shifts) instead of creating a new `nn.Parameter` (object, probe); missing entries = new tensor -/
+  keepId : List Bool := []
 
 structure Recon (θ μ σ : Type) where
   object : ModelSt θ μ σ
